@@ -3,9 +3,10 @@
    without auto-borrow is accepted exactly when the hold update passes the rules, i.e. when available funds cover the
    reservation, and a rejected one changes nothing.  Proved over whole histories: on hold = sum of the reservations recorded for
    orders, per symbol, in every reachable state (LedgerProofs.v); closing an order removes its reservation.
-   Proved over whole histories (HoldsOpen.v): every recorded reservation is that of an order that is open, so whenever no
-   order is open nothing is reserved and nothing is on hold -- for histories whose bars were all processed without an
-   internal error.  C06_partial: the same after a bar that aborted half-way with an internal error (monitor). *)
+   Proved over whole histories (HoldsOpen.v): in every reachable state every recorded reservation is that of an order that
+   is open, so whenever no order is open nothing is reserved and nothing is on hold -- also after operations that aborted
+   half-way with an internal error (the only step between "the record says closed" and "the reservation is deleted" is a
+   release of holds, which cannot be refused in a reachable state). *)
 From Coq Require Import ZArith QArith List.
 From Basana Require Import Num.DecQ Exchange.Model Exchange.AcctProofs Exchange.StepProofs Exchange.OpProofs
      Exchange.HoldProofs Exchange.Prims Exchange.Structure Exchange.LedgerProofs Exchange.AtomicProofs Exchange.CancelProofs
@@ -73,16 +74,15 @@ Theorem C06_reservations_are_non_negative : forall c initial ops k m,
 Proof. exact reachable_reservations_ok. Qed.
 Print Assumptions C06_reservations_are_non_negative.
 
-(* in every state reached by a history whose bars were processed without an internal error, every recorded reservation
-   is non-empty and belongs to an order that is open; no order has two *)
+(* in every reachable state every recorded reservation is non-empty and belongs to an order that is open; no order has
+   two -- whatever happened before, including bars whose processing aborted with an internal error *)
 Theorem C06_reservations_belong_to_open_orders : forall c initial ops,
   cfg_ok c -> ops_ok ops -> NoDup (map fst initial) -> (forall kv, In kv initial -> 0 <= snd kv) ->
-  bars_processed c initial ops ->
   let s := run c (init_st initial) ops in
   NoDup (map fst (s_holds s)) /\
   forall k m, In (k, m) (s_holds s) -> vnonempty m = true /\ still_open s k = true.
 Proof.
-  intros c initial ops Hc Ho Hn Hp Hb. destruct (reservations_belong_to_open_orders c initial ops Hc Ho Hn Hp Hb) as [A B].
+  intros c initial ops Hc Ho Hn Hp. destruct (reservations_belong_to_open_orders_always c initial ops Hc Ho Hn Hp) as [A B].
   split; [exact A|]. intros k m Hin. destruct (B k m Hin) as [X [Y|Y]]; [discriminate Y | split; assumption].
 Qed.
 Print Assumptions C06_reservations_belong_to_open_orders.
@@ -90,12 +90,17 @@ Print Assumptions C06_reservations_belong_to_open_orders.
 (* ... hence: whenever no order is open, nothing is reserved and nothing is on hold in any symbol *)
 Theorem C06_nothing_on_hold_when_no_order_is_open : forall c initial ops x,
   cfg_ok c -> ops_ok ops -> NoDup (map fst initial) -> (forall kv, In kv initial -> 0 <= snd kv) ->
-  bars_processed c initial ops ->
   let s := run c (init_st initial) ops in
   (forall i o, nth_error (s_orders s) i = Some o -> is_open o = false) ->
   s_holds s = [] /\ vget (hold (s_acct s)) x == 0.
-Proof. exact nothing_on_hold_when_no_order_is_open. Qed.
+Proof. exact nothing_on_hold_when_no_order_is_open_always. Qed.
 Print Assumptions C06_nothing_on_hold_when_no_order_is_open.
+
+(* a release of holds is never refused in a state that satisfies the invariants of every reachable state *)
+Theorem C06_release_is_never_refused : forall c s o,
+  cancel_inv s -> is_open o = false -> exists s2, update_balances c s o [] = Done s2 tt.
+Proof. exact release_succeeds. Qed.
+Print Assumptions C06_release_is_never_refused.
 
 (* the premises are met: two orders reserve funds, one is filled and the other cancelled; then nothing is on hold *)
 Example C06_no_open_order_premises_met :
@@ -105,13 +110,13 @@ Example C06_no_open_order_premises_met :
               OCreate (KLimit 90) Buy p 1 false false] in
   let ops := mid ++ [OBar p 120%Z (mkBar 100 100 100 100 100); OCancel 1%nat] in
   let initial := [(2%positive, 1000)] in
-  cfg_ok c /\ ops_ok ops /\ NoDup (map fst initial) /\ bars_processed c initial ops /\
+  cfg_ok c /\ ops_ok ops /\ NoDup (map fst initial) /\
   map (fun kv => fst kv) (s_holds (run c (init_st initial) mid)) = [0%nat; 1%nat] /\
   map is_open (s_orders (run c (init_st initial) ops)) = [false; false] /\
   s_holds (run c (init_st initial) ops) = [].
 Proof.
   cbv zeta. split; [cbn; discriminate|]. split; [repeat constructor; cbn; discriminate|].
-  split; [repeat constructor; intros []|]. split; [apply bars_processed_of_bool; vm_compute; reflexivity|].
+  split; [repeat constructor; intros []|].
   vm_compute. repeat split; reflexivity.
 Qed.
 
